@@ -157,6 +157,23 @@ let handle (toks : string list) : string =
          | Some bs' -> "W:ok " ^ String.concat " " (Stdlib.List.map string_of_z bs'))
       | _ -> failwith "wrt: 7 record integers expected"
     end
+  | "pol" :: start_ns :: cfg_refid :: n :: rest ->
+    (* per step: t_ns mode d_ns e_ns phc(-1 = unreadable) refid tag ; mode 1 = tracking reply, others = nothing usable *)
+    let rec steps k l acc = if k = 0 then Stdlib.List.rev acc else
+      (match l with
+       | t :: mode :: d :: e :: phc :: refid :: tag :: tl ->
+         let phc = z_of_string phc in
+         steps (k - 1) tl ({ Poller.p_t = z_of_string t; p_mode = (if mode = "1" then Poller.PReply else Poller.PSilent);
+                             p_d = z_of_string d; p_e = z_of_string e;
+                             p_phc = (match phc with Zneg _ -> None | _ -> Some phc);
+                             p_refid = z_of_string refid; p_tag = z_of_string tag } :: acc)
+       | _ -> failwith "pol: short") in
+    let ss = steps (int_of_string n) rest [] in
+    let cfg = (let r = z_of_string cfg_refid in match r with Zneg _ -> None | _ -> Some r) in
+    let ms = Poller.poll_run cfg (Poller.poller_init (z_of_string start_ns)) ss in
+    String.concat " " (Stdlib.List.map (function
+      | Poller.PMData (a, p, r, t) -> Printf.sprintf "D:%s:%s:%s:%s" (string_of_z a) (string_of_z p) (string_of_z r) (string_of_z t)
+      | Poller.PMNoReplyGrace -> "NG" | Poller.PMNoReply -> "NR" | Poller.PMPhcFailGrace -> "PG" | Poller.PMPhcFail -> "PF") ms)
   | "gro" :: e :: d :: [] -> string_of_z (Client.growth (z_of_string e) (z_of_string d))
   | tag :: _ -> failwith ("unknown tag " ^ tag)
   | [] -> ""
